@@ -6,6 +6,7 @@ import (
 	"go/parser"
 	"go/token"
 	"path/filepath"
+	"sort"
 
 	"github.com/bmatcuk/doublestar/v4"
 	MapSet "github.com/deckarep/golang-set/v2"
@@ -53,6 +54,10 @@ func (facade *PackagesFacade) GetAllSourceFiles() []*ast.File {
 		result = append(result, file)
 	}
 	result = verifhook.Permute("files", result, func(f *ast.File) string { return facade.fileSet.Position(f.Package).Filename })
+	// Map iteration order is random; visiting order drives import serials and route order in the generated code
+	sort.Slice(result, func(i, j int) bool {
+		return facade.fileSet.Position(result[i].Package).Filename < facade.fileSet.Position(result[j].Package).Filename
+	})
 	return result
 }
 
@@ -212,6 +217,7 @@ func (facade *PackagesFacade) loadAndCacheExpressions(
 	}
 
 	matchingPackages = verifhook.Permute("pkgs", matchingPackages, func(p *packages.Package) string { return p.PkgPath })
+	sort.Slice(matchingPackages, func(i, j int) bool { return matchingPackages[i].PkgPath < matchingPackages[j].PkgPath })
 	// Note that packages.Load does *not* guarantee order
 	for _, pkg := range matchingPackages {
 		facade.cachePackage(pkg, relevantFiles)
